@@ -80,11 +80,11 @@ type walker struct {
 	// unmasked tensor every position is valid and the three visit the same offsets)
 	stepper string
 	it      tensor.Iterator
-	arr    Arr
-	window []interface{}
-	offs   []int // may be nil
-	coords [][]int
-	desc   string
+	arr     Arr
+	window  []interface{}
+	offs    []int // may be nil
+	coords  [][]int
+	desc    string
 }
 
 // full performs a complete walk in the given direction and checks every step.
